@@ -154,7 +154,8 @@ def case(draw, unit_variation=False):
     return {"sys": spec, "engine": engine, "policy": policy, "dt": dt, "req_steps": pieces, "tmax_steps": tmax_steps,
             "interval_steps": interval_steps, "ops": "".join(ops), "seed": draw(st.integers(0, 2 ** 32 - 1)),
             "units": units, "tunit": draw(st.sampled_from(["h", "min", "s", "ms", "µs"])),
-            "route": draw(st.sampled_from(["ctor", "dict"])), "tsform": draw(st.sampled_from(["list", "nparray", "unitarray"]))}
+            "route": draw(st.sampled_from(["ctor", "dict"])), "tsform": draw(st.sampled_from(["list", "nparray", "unitarray"])),
+            "build": draw(st.sampled_from(["ctor", "ctor", "setters"]))}
 
 
 def integerise(spec):
@@ -189,6 +190,21 @@ def make_script(c, system, policy, unit_variation):
         if tmax is not None:
             kw["t_max"] = "%r %s" % (tmax * f, c["tunit"])
     mode = "none"
+    if c.get("build") == "setters":
+        # the script object existed before with other time quantities, was read (t_max resolved, dictionary made),
+        # and is then edited through its public setters: it must run like a script built directly
+        decoy = [0.0, req[-1] * 0.37 + 2.5 * dt]
+        script = S.RDScript(system, decoy, sampling_policy="on_iteration", rng_seed=c["seed"], init_state_processing=mode,
+                            units_system=B.US(U), time_step=dt * 0.7, sampling_interval=dt * 5.5)
+        _ = script.t_max
+        S.rdscript_to_dict(script)
+        script.t_sample = ts_arg
+        script.time_step = kw["time_step"]
+        script.sampling_interval = kw["sampling_interval"]
+        if "t_max" in kw:
+            script.t_max = kw["t_max"]
+        script.sampling_policy = policy
+        return script, req, interval, (req[-1] if tmax is None else tmax)
     return S.RDScript(system, ts_arg, sampling_policy=policy, rng_seed=c["seed"], init_state_processing=mode,
                       units_system=B.US(U), **kw), req, interval, (req[-1] if tmax is None else tmax)
 
@@ -212,7 +228,7 @@ def drive(script, kind, ops):
 
 
 def classes_of(c, records, ops, req, tmax, k_end, died):
-    cl = ["engine:" + c["engine"], "policy:" + c["policy"], "space:" + c["sys"]["space"]["type"]]
+    cl = ["engine:" + c["engine"], "policy:" + c["policy"], "space:" + c["sys"]["space"]["type"], "script:" + c.get("build", "ctor")]
     feats = 0
     if c["policy"] == "on_t_sample":
         # a step covering >= 2 requested times
